@@ -19,14 +19,15 @@ from vf import build, recs, graph
 # d4 unknown command 5 (first bytes); 80 81 82 85 aa b1 83 second bytes
 DEV_CONFIGS = [
     ("symbols",   ["sigma=10,c6,aa,c8,e8", "cap=4", "arb=31,aa", "send=2a,aa,c5"], True),
-    ("reset",     ["sigma=10,c0,c8,80,81", "cap=4", "clk=1", "arb=31,aa"], True),
+    ("reset",     ["sigma=10,2a,c0,c8,80", "cap=4", "clk=1", "arb=31,aa", "distinct=1"], True),
     ("malformed", ["sigma=10,d4,80,c6,ec", "cap=4", "arb=31,aa"], True),
-    ("info",      ["sigma=10,cc,81,82,c0", "cap=3", "info=00", "arb=31"], True),
-    ("mix8",      ["sigma=10,c6,c8,e8,c0,ec,d4,81", "cap=3", "clk=1", "arb=31,aa"], True),
+    ("info",      ["sigma=10,cc,81,82,c0", "cap=3", "info=00", "arb=31", "distinct=1"], True),
+    ("mix8",      ["sigma=10,c6,c8,e8,c0,ec,d4,81", "cap=3", "clk=1", "arb=31,aa", "distinct=1"], True),
     ("symbols9",  ["sigma=10,2a,c6,aa,85,c8,b1,e8,83", "cap=4", "arb=31,aa", "send=2a,aa"], False),
-    ("reset7",    ["sigma=10,c6,c8,e8,c0,81,80", "cap=4", "clk=1", "arb=31,aa"], False),
+    ("reset6",    ["sigma=10,2a,c0,c8,80,81", "cap=4", "clk=1", "arb=31,aa", "distinct=1"], False),
+    ("reset7",    ["sigma=10,2a,c6,c8,e8,c0,81,80", "cap=4", "clk=1", "arb=31,aa", "distinct=1"], False),
     ("info6",     ["sigma=10,cc,81,82,c0,d4", "cap=3", "clk=1", "arb=31,aa", "info=00,03", "send=2a,aa"], False),
-    ("mix10",     ["sigma=10,2a,c6,c8,e8,c0,ec,d4,81,aa", "cap=3", "clk=1", "arb=31,aa"], False),
+    ("mix10",     ["sigma=10,2a,c6,c8,e8,c0,ec,d4,81,aa", "cap=3", "clk=1", "arb=31,aa", "distinct=1"], False),
 ]
 
 # hand-minimised reproductions of the defects of the pinned tree (informational: replayed and judged, listed in the notes)
@@ -40,6 +41,13 @@ CURATED = [
 ]
 
 
+def _replay(extra, sig):
+    for csig, what, ctoks in CURATED:
+        if csig == sig:
+            extra = dict(extra, minimal_reproduction={"what": what, "tokens": ctoks})
+    return extra
+
+
 def _cap(args):
     for a in args:
         if a.startswith("cap="):
@@ -47,8 +55,16 @@ def _cap(args):
     return "3"
 
 
+_confirmed = set()
+
+
 def _confirm(ctx, exe, wd, name, sig, toks, env):
-    """rule 5: a rejection is reported only if it reproduces when its token path is re-executed from a fresh object"""
+    """rule 5: a rejection is reported only if it reproduces when its token path is re-executed from a fresh object
+    (done for the first witness of every signature)"""
+    if name != "curated":
+        if sig in _confirmed:
+            return True
+        _confirmed.add(sig)
     toks = [t for t in toks if not t.startswith("T=")]
     tf = "%s/replay-%s.tok" % (wd, name)
     pf = "%s/replay-%s.ndjson" % (wd, name)
@@ -75,7 +91,7 @@ def _device(ctx, exe, wd, cov):
             if not _confirm(ctx, exe, wd, name, sig, toks, env):
                 raise RuntimeError("rejection %s of config %s does not reproduce from its token path %s" % (sig, name, toks))
             ctx.violation(sig, "P monitor (reference decoder) rejects a path of the real EnhancedDevice's transition graph "
-                          "(config %s, %d steps)" % (name, len(toks)), {"harness": "c14_enh", "harness_args": args, "tokens": toks})
+                          "(config %s, %d steps)" % (name, len(toks)), _replay({"harness": "c14_enh", "harness_args": args, "tokens": toks}, sig))
         # S fidelity on the same graph (drift only)
         fres, fbad = recs.judge(ctx, "C14Fid", "C14Fid.cfg", gf, workers=8, heap="6g", tag="C14-fid-" + name)
         if fbad:
@@ -105,7 +121,7 @@ def _device_random(ctx, exe, wd, cov):
         if not _confirm(ctx, exe, wd, "random", sig, toks, env):
             raise RuntimeError("rejection %s of a random trace does not reproduce from its token path" % sig)
         ctx.violation(sig, "P monitor (reference decoder) rejects a recorded random trace of the real EnhancedDevice (%d steps)"
-                      % len(toks), {"harness": "c14_enh", "tokens": [t for t in toks if not t.startswith("T=")]})
+                      % len(toks), _replay({"harness": "c14_enh", "tokens": [t for t in toks if not t.startswith("T=")]}, sig))
     fres, fbad = recs.judge(ctx, "C14Fid", "C14Fid.cfg", gf, workers=8, heap="6g", tag="C14-fid-random")
     if fbad:
         ctx.drift.append("S model of EnhancedDevice differs from the code on %d steps of the random traces (first: node %s edge %s)"
